@@ -748,7 +748,7 @@ func (r *Run) guardedBy(g guardSpec) {
 			// synchronous closures (immediately invoked, stdlib callbacks) run under their
 			// parent's lock state: analyse them inline in the parent
 			sc := u.Scope
-			for sc.Lit != nil && sc.Parent != nil && !r.litEscapes(sc) {
+			for sc.Lit != nil && sc.Parent != nil && (!r.litEscapes(sc) || r.lockWrapperLevel(sc.Lit, g.Mutex) != lkNone) {
 				sc = sc.Parent
 			}
 			addScope(sc)
@@ -821,9 +821,24 @@ func (r *Run) guardedBy(g guardSpec) {
 					// immediately invoked literals and synchronous callbacks run under the
 					// caller's lock state
 					sc := r.P.ScopeAt(lit.Body.Lbrace + 1)
-					return sc != nil && sc.Lit == lit && !r.litEscapes(sc)
+					return sc != nil && sc.Lit == lit && (!r.litEscapes(sc) || r.lockWrapperLevel(lit, g.Mutex) != lkNone)
 				},
 				Step: func(c *pathsim.Ctx, s pathsim.State, ev *pathsim.Event) []pathsim.State {
+					// a closure handed to a lock wrapper runs with the mutex held; the wrapper call that
+					// follows (its Lock and deferred Unlock are simulated in place) restores the level
+					if ev.Kind == pathsim.EvInlineLit && ev.Lit != nil {
+						if lv := r.lockWrapperLevel(ev.Lit, g.Mutex); lv != lkNone {
+							s.B = s.A + 1 // remember the level outside the wrapper
+							if lv > s.A {
+								s.A = lv
+							}
+							return []pathsim.State{s}
+						}
+					}
+					if ev.Kind == pathsim.EvInlineLitEnd && s.B > 0 {
+						s.A, s.B = s.B-1, 0
+						return []pathsim.State{s}
+					}
 					if m, ok := isMutexCall(c, ev); ok {
 						if ev.Deferred {
 							return nil // released at function exit
@@ -1083,4 +1098,103 @@ func (r *Run) bareReturnsWithResult(f *prog.FuncInfo, idx int) map[token.Pos]boo
 	}}
 	pathsim.Run(r.P, f.Decl, spec)
 	return out
+}
+
+// lockWrapperLevel: lit is an argument of a call to a same-module function that takes mutex mu
+// (Lock -> lkWrite, RLock -> lkRead), calls the corresponding function parameter directly (not
+// with go) and releases the mutex afterwards — `st.withLock(func() { ... })`. The level at which
+// the literal's body runs is returned (lkNone when lit is not such an argument).
+func (r *Run) lockWrapperLevel(lit *ast.FuncLit, mu *types.Var) int32 {
+	f := r.P.FileAt(lit.Pos())
+	info := r.P.InfoAt(lit.Pos())
+	if f == nil || info == nil {
+		return lkNone
+	}
+	path := r.P.PathTo(f, lit.Pos(), lit.End())
+	for i := len(path) - 1; i > 0; i-- {
+		if path[i] != ast.Node(lit) {
+			continue
+		}
+		call, ok := path[i-1].(*ast.CallExpr)
+		if !ok {
+			return lkNone
+		}
+		argIdx := -1
+		for k, a := range call.Args {
+			if ast.Unparen(a) == ast.Expr(lit) {
+				argIdx = k
+			}
+		}
+		if argIdx < 0 {
+			return lkNone
+		}
+		fi := r.P.FuncInfoOf(r.P.CalleeFunc(info, call))
+		if fi == nil || fi.Decl == nil || fi.Decl.Body == nil || fi.Decl.Type.Params == nil {
+			return lkNone
+		}
+		// the parameter at argIdx
+		var param types.Object
+		k := 0
+		for _, fld := range fi.Decl.Type.Params.List {
+			for _, n := range fld.Names {
+				if k == argIdx {
+					param = fi.Pkg.TypesInfo.Defs[n]
+				}
+				k++
+			}
+		}
+		if param == nil {
+			return lkNone
+		}
+		wi := fi.Pkg.TypesInfo
+		level, called, bad := int32(lkNone), false, false
+		var lockPos, callPos token.Pos
+		ast.Inspect(fi.Decl.Body, func(nd ast.Node) bool {
+			switch x := nd.(type) {
+			case *ast.GoStmt:
+				if prog.IdentObjPlain(wi, x.Call.Fun) == param {
+					bad = true
+				}
+			case *ast.FuncLit:
+				return false
+			case *ast.CallExpr:
+				if prog.IdentObjPlain(wi, x.Fun) == param {
+					called, callPos = true, x.Pos()
+				}
+				if sel, isSel := ast.Unparen(x.Fun).(*ast.SelectorExpr); isSel && prog.SelField(wi, sel.X) == mu {
+					switch sel.Sel.Name {
+					case "Lock":
+						if level == lkNone {
+							level, lockPos = lkWrite, x.Pos()
+						}
+					case "RLock":
+						if level == lkNone {
+							level, lockPos = lkRead, x.Pos()
+						}
+					}
+				}
+			}
+			return true
+		})
+		if bad || !called || level == lkNone || lockPos > callPos {
+			return lkNone
+		}
+		// an explicit (non-deferred) unlock before the call would release the lock first
+		early := false
+		ast.Inspect(fi.Decl.Body, func(nd ast.Node) bool {
+			if es, isES := nd.(*ast.ExprStmt); isES {
+				if c2, isCall := es.X.(*ast.CallExpr); isCall && c2.Pos() < callPos {
+					if sel, isSel := ast.Unparen(c2.Fun).(*ast.SelectorExpr); isSel && prog.SelField(wi, sel.X) == mu && (sel.Sel.Name == "Unlock" || sel.Sel.Name == "RUnlock") {
+						early = true
+					}
+				}
+			}
+			return true
+		})
+		if early {
+			return lkNone
+		}
+		return level
+	}
+	return lkNone
 }
